@@ -654,6 +654,12 @@ async fn run_op(env: Arc<Env>, task: String, op: Value) {
                   drop(s2);
                 }
                 "hold" => held.push(st),
+                "garbage" => {
+                  // a wrong peer that answers at once with something that is not ZMTP, then goes
+                  let mut st = st;
+                  let _ = tokio::io::AsyncWriteExt::write_all(&mut st, b"HTTP/1.1 400 Bad Request\r\nConnection: close\r\n\r\n").await;
+                  drop(st);
+                }
                 _ => drop(st),
               }
             }
